@@ -20,6 +20,13 @@ package main
 //   get <inst> k:<hex> <int|float|str|bool>  typed getter                                   -> value | panic
 //   has <inst> k:<hex>                       HasEntry                                       -> 0|1
 //   use <inst>                               run the component (Go only; failures via Fail) -> used
+//   lateerr <inst> <n>                       the use appended n messages to the instance's parameter errors (catchment:
+//                                            the data set did not load at Initialise; an oracle for the model)  -> state
+//   part <inst> <c>                          the instance's SetParameters forwards every user map to a nested
+//                                            component with <c>'s table (explorer under an annealer, coolant under
+//                                            an explorer); `set <inst>` applies to the instance and all its parts   -> state of the part
+//   pstate <inst> <i>                        state of the i-th nested part                  -> state
+//   perrs <inst>                             ParameterErrors() != nil (own and nested errors merged) -> 0|1
 // state = `errs <invalid> <unsupported> <message> map <n> (k:<hex> <value>)*` sorted by key.
 
 import (
@@ -84,8 +91,8 @@ func encValue(v interface{}) string {
 			parts = append(parts, encValue(e))
 		}
 		return strings.Join(parts, " ")
-	case []map[string]interface{}: // TOML array of tables
-		parts := []string{"a:" + strconv.Itoa(len(x))}
+	case []map[string]interface{}: // TOML array of tables ([[k]]): a Go type of its own, hence a token of its own
+		parts := []string{"A:" + strconv.Itoa(len(x))}
 		for _, e := range x {
 			parts = append(parts, encValue(e))
 		}
@@ -153,6 +160,24 @@ func decValue(toks []string, pos *int) (interface{}, error) {
 				return nil, err
 			}
 			out = append(out, e)
+		}
+		return out, nil
+	case strings.HasPrefix(t, "A:"):
+		n, err := strconv.Atoi(t[2:])
+		if err != nil || n < 0 || n > 1000 {
+			return nil, fmt.Errorf("bad table-array length")
+		}
+		out := make([]map[string]interface{}, 0, n)
+		for i := 0; i < n; i++ {
+			e, err := decValue(toks, pos)
+			if err != nil {
+				return nil, err
+			}
+			m, isTable := e.(map[string]interface{})
+			if !isTable {
+				return nil, fmt.Errorf("table expected in an array of tables")
+			}
+			out = append(out, m)
 		}
 		return out, nil
 	case strings.HasPrefix(t, "t:"):
@@ -232,14 +257,44 @@ func valueClass(v interface{}) string {
 
 // ---------------------------------------------------------------- components
 
-type paramInst struct {
-	comp *paramComp
-	kind string // comp | all | enforced
-	set  func(parameters.Map) string
+// setResult: what one SetParameters call did (its returned error, if the method returns one; the panic text)
+type setResult struct {
+	ret      error
+	hasRet   bool
+	panicked string
+}
+
+// nestedPart: a component the instance's SetParameters hands every user map on to
+type nestedPart struct {
+	comp string // the stand-alone component with the same specification table (declared to the model under this name)
 	p    func() *parameters.Parameters
-	errs func() error
-	use  func(h *paramHarness, inst *paramInst) string
-	maps []parameters.Map // user maps applied so far
+}
+
+type paramInst struct {
+	comp   *paramComp
+	kind   string // comp | all | enforced
+	set    func(parameters.Map) setResult
+	p      func() *parameters.Parameters
+	errs   func() error
+	use    func(h *paramHarness, inst *paramInst) string
+	nested []nestedPart
+	maps   []parameters.Map // user maps applied so far
+}
+
+// setReturning wraps a SetParameters that returns an error; setSilently one that returns nothing.
+func setReturning(f func(parameters.Map) error) func(parameters.Map) setResult {
+	return func(m parameters.Map) (r setResult) {
+		r.hasRet = true
+		r.panicked = protect(func() { r.ret = f(m) })
+		return r
+	}
+}
+
+func setSilently(f func(parameters.Map)) func(parameters.Map) setResult {
+	return func(m parameters.Map) (r setResult) {
+		r.panicked = protect(func() { f(m) })
+		return r
+	}
 }
 
 type paramComp struct {
@@ -249,7 +304,6 @@ type paramComp struct {
 	offers []string
 	fresh  func() *paramInst
 }
-
 
 func (i *paramInst) getInt(k string) (int64, bool) {
 	v, ok := i.p().VerifParamMap()[k].(int64)
@@ -280,16 +334,56 @@ func paramComponents() []*paramComp {
 		sa := new(annealers.SimpleAnnealer)
 		sa.Initialise()
 		return &paramInst{
-			set:  func(m parameters.Map) string { return protect(func() { sa.SetParameters(m) }) },
+			set:  setReturning(sa.SetParameters),
 			p:    sa.VerifParameters,
 			errs: sa.ParameterErrors,
-			use: func(h *paramHarness, inst *paramInst) string {
-				if n, ok := inst.getInt(annealers.MaximumIterations); ok && n > 5000 {
-					h.c.Stat("use skipped: annealer MaximumIterations too large to run")
-					return ""
-				}
-				return protect(func() { sa.Anneal() })
-			},
+			use:  annealerUse(sa),
+		}
+	}})
+
+	// the annealer as crem wires it: one SetParameters fans the user map out to the explorer and on to its coolant
+	add(&paramComp{name: "annealer+kirk", mode: "enforced", post: "none", fresh: func() *paramInst {
+		sa := new(annealers.SimpleAnnealer)
+		sa.Initialise()
+		ke := expKirk.New().WithModel(dumb.NewModel())
+		ke.SetLogHandler(loggers.NewNullLogger())
+		sa.SetSolutionExplorer(ke)
+		return &paramInst{
+			set:    setReturning(sa.SetParameters),
+			p:      sa.VerifParameters,
+			errs:   sa.ParameterErrors,
+			use:    annealerUse(sa),
+			nested: []nestedPart{{"kirkexplorer", ke.VerifParameters}, {"kirkcoolant", ke.Coolant.VerifCoolantParameters}},
+		}
+	}})
+	add(&paramComp{name: "annealer+supp", mode: "enforced", post: "none", fresh: func() *paramInst {
+		sa := new(annealers.SimpleAnnealer)
+		sa.Initialise()
+		co := coolSupp.NewCoolant()
+		se := expSupp.New().WithCoolant(co).WithModel(modumb.NewModel().WithParameters(parameters.Map{modumbParams.NumberOfPlanningUnits: int64(4)}))
+		se.SetLogHandler(loggers.NewNullLogger())
+		sa.SetSolutionExplorer(se)
+		return &paramInst{
+			set:    setReturning(sa.SetParameters),
+			p:      sa.VerifParameters,
+			errs:   sa.ParameterErrors,
+			use:    annealerUse(sa),
+			nested: []nestedPart{{"suppexplorer", se.VerifParameters}, {"suppcoolant", co.VerifCoolantParameters}},
+		}
+	}})
+	add(&paramComp{name: "annealer+avg", mode: "enforced", post: "none", fresh: func() *paramInst {
+		sa := new(annealers.SimpleAnnealer)
+		sa.Initialise()
+		co := coolAveraged.NewCoolant()
+		se := expSupp.New().WithCoolant(co).WithModel(modumb.NewModel().WithParameters(parameters.Map{modumbParams.NumberOfPlanningUnits: int64(4)}))
+		se.SetLogHandler(loggers.NewNullLogger())
+		sa.SetSolutionExplorer(se)
+		return &paramInst{
+			set:    setReturning(sa.SetParameters),
+			p:      sa.VerifParameters,
+			errs:   sa.ParameterErrors,
+			use:    annealerUse(sa),
+			nested: []nestedPart{{"suppexplorer", se.VerifParameters}, {"avgcoolant", co.VerifCoolantParameters}},
 		}
 	}})
 
@@ -298,9 +392,10 @@ func paramComponents() []*paramComp {
 			ke := expKirk.New().WithModel(dumb.NewModel())
 			ke.SetLogHandler(loggers.NewNullLogger())
 			return &paramInst{
-				set:  func(m parameters.Map) string { return protect(func() { ke.SetParameters(m) }) },
-				p:    ke.VerifParameters,
-				errs: ke.ParameterErrors,
+				set:    setReturning(ke.SetParameters),
+				p:      ke.VerifParameters,
+				errs:   ke.ParameterErrors,
+				nested: []nestedPart{{"kirkcoolant", ke.Coolant.VerifCoolantParameters}},
 				use: func(h *paramHarness, inst *paramInst) string {
 					return protect(func() {
 						ke.Initialise()
@@ -315,12 +410,14 @@ func paramComponents() []*paramComp {
 		}})
 
 	add(&paramComp{name: "suppexplorer", mode: "enforced", post: "none", fresh: func() *paramInst {
-		se := expSupp.New().WithCoolant(coolSupp.NewCoolant()).WithModel(modumb.NewModel().WithParameters(parameters.Map{modumbParams.NumberOfPlanningUnits: int64(4)}))
+		co := coolSupp.NewCoolant()
+		se := expSupp.New().WithCoolant(co).WithModel(modumb.NewModel().WithParameters(parameters.Map{modumbParams.NumberOfPlanningUnits: int64(4)}))
 		se.SetLogHandler(loggers.NewNullLogger())
 		return &paramInst{
-			set:  func(m parameters.Map) string { return protect(func() { se.SetParameters(m) }) },
-			p:    se.VerifParameters,
-			errs: se.ParameterErrors,
+			set:    setReturning(se.SetParameters),
+			p:      se.VerifParameters,
+			errs:   se.ParameterErrors,
+			nested: []nestedPart{{"suppcoolant", co.VerifCoolantParameters}},
 			use: func(h *paramHarness, inst *paramInst) string {
 				return protect(func() {
 					se.Initialise()
@@ -336,7 +433,7 @@ func paramComponents() []*paramComp {
 	add(&paramComp{name: "kirkcoolant", mode: "enforced", post: "none", fresh: func() *paramInst {
 		co := new(coolKirk.Coolant).Initialise()
 		return &paramInst{
-			set:  func(m parameters.Map) string { return protect(func() { co.WithParameters(m) }) },
+			set:  setSilently(func(m parameters.Map) { co.WithParameters(m) }), // the Kirkpatrick coolant has no SetParameters
 			p:    co.VerifCoolantParameters,
 			errs: co.ParameterErrors,
 			use: func(h *paramHarness, inst *paramInst) string {
@@ -354,7 +451,7 @@ func paramComponents() []*paramComp {
 	add(&paramComp{name: "suppcoolant", mode: "enforced", post: "none", fresh: func() *paramInst {
 		co := coolSupp.NewCoolant()
 		return &paramInst{
-			set:  func(m parameters.Map) string { return protect(func() { co.SetParameters(m) }) },
+			set:  setReturning(co.SetParameters),
 			p:    co.VerifCoolantParameters,
 			errs: co.ParameterErrors,
 			use: func(h *paramHarness, inst *paramInst) string {
@@ -372,7 +469,7 @@ func paramComponents() []*paramComp {
 	add(&paramComp{name: "avgcoolant", mode: "enforced", post: "none", fresh: func() *paramInst {
 		co := coolAveraged.NewCoolant()
 		return &paramInst{
-			set:  func(m parameters.Map) string { return protect(func() { co.SetParameters(m) }) },
+			set:  setReturning(co.SetParameters),
 			p:    co.VerifCoolantParameters,
 			errs: co.ParameterErrors,
 			use: func(h *paramHarness, inst *paramInst) string {
@@ -394,7 +491,7 @@ func paramComponents() []*paramComp {
 	add(&paramComp{name: "catchment", mode: "all", post: postCatch, fresh: func() *paramInst {
 		m := catchment.NewModel()
 		return &paramInst{
-			set:  func(pm parameters.Map) string { return protect(func() { m.SetParameters(pm) }) },
+			set:  setReturning(m.SetParameters),
 			p:    m.VerifParameters,
 			errs: m.ParameterErrors,
 			use: func(h *paramHarness, inst *paramInst) string {
@@ -412,11 +509,7 @@ func paramComponents() []*paramComp {
 							m.RevertChange()
 						}
 					}
-					for _, v := range *m.NameMappedVariables() {
-						if math.IsNaN(v.Value()) || math.IsInf(v.Value(), 0) {
-							h.c.Stat("use: catchment decision variable not finite")
-						}
-					}
+					failIfNotFinite(m)
 				})
 				return failure
 			},
@@ -426,7 +519,7 @@ func paramComponents() []*paramComp {
 	add(&paramComp{name: "dumb", mode: "all", post: "none", fresh: func() *paramInst {
 		m := dumb.NewModel()
 		return &paramInst{
-			set:  func(pm parameters.Map) string { return protect(func() { m.SetParameters(pm) }) },
+			set:  setReturning(m.SetParameters),
 			p:    m.VerifParameters,
 			errs: m.ParameterErrors,
 			use: func(h *paramHarness, inst *paramInst) string {
@@ -441,6 +534,7 @@ func paramComponents() []*paramComp {
 							m.RevertChange()
 						}
 					}
+					failIfNotFinite(m)
 				})
 			},
 		}
@@ -449,7 +543,7 @@ func paramComponents() []*paramComp {
 	add(&paramComp{name: "modumb", mode: "all", post: "none", fresh: func() *paramInst {
 		m := modumb.NewModel()
 		return &paramInst{
-			set:  func(pm parameters.Map) string { return protect(func() { m.SetParameters(pm) }) },
+			set:  setReturning(m.SetParameters),
 			p:    m.VerifParameters,
 			errs: m.ParameterErrors,
 			use: func(h *paramHarness, inst *paramInst) string {
@@ -464,6 +558,7 @@ func paramComponents() []*paramComp {
 								m.RevertChange()
 							}
 						}
+						failIfNotFinite(m)
 					})
 				}
 				if n, ok := inst.getInt(modumbParams.NumberOfPlanningUnits); ok && n > 20000 {
@@ -476,21 +571,48 @@ func paramComponents() []*paramComp {
 	return comps
 }
 
+// failIfNotFinite: a model that was given error-free parameters and ran must not hold NaN or infinite decision
+// variables (a silent failure on a parameter's range: nothing panics, every result is garbage).
+func failIfNotFinite(m model.Model) {
+	vars := m.NameMappedVariables()
+	if vars == nil {
+		return
+	}
+	names := make([]string, 0, len(*vars))
+	for name := range *vars {
+		names = append(names, name)
+	}
+	sort.Strings(names)
+	for _, name := range names {
+		if v := (*vars)[name].Value(); math.IsNaN(v) || math.IsInf(v, 0) {
+			panic(fmt.Sprintf("non-finite-result: decision variable %s = %v after an error-free parameterisation", name, v))
+		}
+	}
+}
+
+func annealerUse(sa *annealers.SimpleAnnealer) func(h *paramHarness, inst *paramInst) string {
+	return func(h *paramHarness, inst *paramInst) string {
+		if n, ok := inst.getInt(annealers.MaximumIterations); ok && n > 5000 {
+			h.c.Stat("use skipped: annealer MaximumIterations too large to run")
+			return ""
+		}
+		return protect(func() { sa.Anneal() })
+	}
+}
+
 // rawInst is a bare parameters.Parameters enforcing a component's live table, driven through
 // AssignAllUserValues or AssignOnlyEnforcedUserValues directly (so both loops meet every table).
 func rawInst(c *paramComp, mode string) *paramInst {
 	specs := c.fresh().p().VerifSpecifications()
 	p := new(parameters.Parameters).Initialise("verif raw").Enforcing(&specs)
 	return &paramInst{
-		set: func(m parameters.Map) string {
-			return protect(func() {
-				if mode == "all" {
-					p.AssignAllUserValues(m)
-				} else {
-					p.AssignOnlyEnforcedUserValues(m)
-				}
-			})
-		},
+		set: setSilently(func(m parameters.Map) {
+			if mode == "all" {
+				p.AssignAllUserValues(m)
+			} else {
+				p.AssignOnlyEnforcedUserValues(m)
+			}
+		}),
 		p:    func() *parameters.Parameters { return p },
 		errs: p.ValidationErrors,
 	}
@@ -618,6 +740,36 @@ type paramHarness struct {
 	usesLeft  map[string]int
 	reported  map[string]bool
 	heavyMemo map[string]string
+	nestedOf  map[string][]string // component -> the components its SetParameters forwards to
+}
+
+// specFor: the specification a user key meets in the component or, failing that, in one it forwards to.
+func (h *paramHarness) specFor(comp, key string) (specification.Specification, bool) {
+	if s, ok := h.specs[comp][key]; ok {
+		return s, true
+	}
+	for _, n := range h.nestedOf[comp] {
+		if s, ok := h.specs[n][key]; ok {
+			return s, true
+		}
+	}
+	return specification.Specification{}, false
+}
+
+// nestedKeys: the keys only the forwarded-to components specify (sorted).
+func (h *paramHarness) nestedKeys(comp string) []string {
+	seen := map[string]bool{}
+	var out []string
+	for _, n := range h.nestedOf[comp] {
+		for k := range h.specs[n] {
+			if _, own := h.specs[comp][k]; !own && !seen[k] {
+				seen[k] = true
+				out = append(out, k)
+			}
+		}
+	}
+	sort.Strings(out)
+	return out
 }
 
 func isReadable(s string) bool {
@@ -700,7 +852,35 @@ func (h *paramHarness) ensureComp(name string) *paramComp {
 		}
 	}
 	h.c.Op("specsdone "+name, strconv.Itoa(len(keys)))
+	// the components this one forwards its user maps to: declared as well, and their live tables must be the
+	// tables of the stand-alone components they are declared as (else the tie to the model is broken)
+	for i, n := range inst.nested {
+		h.nestedOf[name] = append(h.nestedOf[name], n.comp)
+		if h.ensureComp(n.comp) == nil {
+			h.c.Fail("structural:fan-out", "params:"+name+":nested-component-unavailable", fmt.Sprintf("%s: nested part %d (%s) cannot be declared", name, i, n.comp), nil)
+			continue
+		}
+		if got, want := tableText(n.p().VerifSpecifications()), tableText(h.specs[n.comp]); got != want {
+			h.c.Fail("structural:fan-out", "params:"+name+":nested-table-differs",
+				fmt.Sprintf("%s: the specification table of nested part %d differs from the stand-alone %s's\nnested: %s\nalone:  %s", name, i, n.comp, got, want), nil)
+		}
+	}
 	return c
+}
+
+// tableText: a specification table in canonical text form (keys sorted; validator kind, optional flag, default).
+func tableText(specs specification.Specifications) string {
+	keys := make([]string, 0, len(specs))
+	for k := range specs {
+		keys = append(keys, k)
+	}
+	sort.Strings(keys)
+	var sb strings.Builder
+	for _, k := range keys {
+		s := specs[k]
+		fmt.Fprintf(&sb, "%s %s %s %s; ", k, validatorToken(s.Validator), b2s(s.IsOptional), encValue(s.DefaultValue))
+	}
+	return sb.String()
 }
 
 func classifyVerdict(e error) string {
@@ -726,12 +906,14 @@ func errClass(e error) int {
 	return 2
 }
 
-func (h *paramHarness) state(inst *paramInst) string {
+func (h *paramHarness) state(inst *paramInst) string { return stateOf(inst.p()) }
+
+func stateOf(p *parameters.Parameters) string {
 	var cnt [3]int
-	for _, e := range inst.p().VerifValidationErrors() {
+	for _, e := range p.VerifValidationErrors() {
 		cnt[errClass(e)]++
 	}
-	m := inst.p().VerifParamMap()
+	m := p.VerifParamMap()
 	keys := make([]string, 0, len(m))
 	for k := range m {
 		keys = append(keys, k)
@@ -747,9 +929,15 @@ func (h *paramHarness) state(inst *paramInst) string {
 
 // checkWT: the invariant of the theorem, evaluated on the implementation with its own validators.
 func (h *paramHarness) checkWT(inst *paramInst, op string) {
-	name := inst.comp.name
-	specs := inst.p().VerifSpecifications()
-	m := inst.p().VerifParamMap()
+	h.checkWTOf(inst, inst.comp.name, inst.p(), op)
+	for i, n := range inst.nested {
+		h.checkWTOf(inst, fmt.Sprintf("%s[part %d: %s]", inst.comp.name, i, n.comp), n.p(), op)
+	}
+}
+
+func (h *paramHarness) checkWTOf(inst *paramInst, name string, p *parameters.Parameters, op string) {
+	specs := p.VerifSpecifications()
+	m := p.VerifParamMap()
 	for k, v := range m {
 		if classifyVerdict(specs.Validate(k, v)) != "valid" {
 			if s, ok := specs[k]; ok && sameValue(v, s.DefaultValue) {
@@ -789,8 +977,8 @@ func (h *paramHarness) exec(line string) {
 	c := h.c
 	bad := func() { c.Op(line, "bad-op") }
 	switch w[0] {
-	case "comp", "spec", "spect", "specsdone", "readable", "offers":
-		return // regenerated from the live code by ensureComp / noteStrings
+	case "comp", "spec", "spect", "specsdone", "readable", "offers", "part", "pstate", "perrs", "lateerr":
+		return // regenerated from the live code by ensureComp / noteStrings / load / set / use
 	case "load":
 		if len(w) != 4 {
 			bad()
@@ -815,6 +1003,13 @@ func (h *paramHarness) exec(line string) {
 		h.insts[w[1]] = inst
 		h.instOps[w[1]] = []string{line}
 		c.Op(line, h.state(inst))
+		if w[3] == "comp" {
+			for _, n := range inst.nested {
+				c.Op("part "+w[1]+" "+n.comp, stateOf(n.p()))
+			}
+		} else {
+			inst.nested = nil
+		}
 		h.checkWT(inst, line)
 	case "set":
 		if len(w) < 3 {
@@ -967,8 +1162,18 @@ func (h *paramHarness) exec(line string) {
 		}
 		inst := h.insts[w[1]]
 		h.instOps[w[1]] = append(h.instOps[w[1]], line)
+		errsBefore := len(inst.p().VerifValidationErrors())
 		h.doUse(inst, line)
 		c.Op(line, "used")
+		// a use may be followed by further SetParameters calls: what it did to the parameter set is part of the history
+		switch errsNow := len(inst.p().VerifValidationErrors()); {
+		case errsNow > errsBefore:
+			c.Op(fmt.Sprintf("lateerr %s %d", w[1], errsNow-errsBefore), h.state(inst))
+			c.Stat("use appended parameter errors (" + inst.comp.name + ")")
+		case errsNow < errsBefore:
+			c.Fail("errors-accumulate", "params:"+inst.comp.name+":errors-lost", fmt.Sprintf("%s: %d validation error(s) before the use, %d after", inst.comp.name, errsBefore, errsNow), h.opsOf(inst, line))
+		}
+		h.checkWT(inst, line)
 	default:
 		bad()
 	}
@@ -988,6 +1193,8 @@ func valueKind(v interface{}) string {
 		return "bool"
 	case []interface{}:
 		return "array"
+	case []map[string]interface{}:
+		return "tablearray"
 	case map[string]interface{}:
 		return "table"
 	case time.Time:
@@ -996,44 +1203,42 @@ func valueKind(v interface{}) string {
 	return "other"
 }
 
-// doSet applies one user map and evaluates the property's clauses directly on the implementation.
-func (h *paramHarness) doSet(inst *paramInst, user parameters.Map, line string) {
-	c := h.c
-	name := inst.comp.name
-	p := inst.p()
-	specs := p.VerifSpecifications()
+// tableView: one parameter set (the component's own or a nested component's) as it was before a SetParameters call
+type tableView struct {
+	label      string // how failure details name it
+	mode       string
+	p          *parameters.Parameters
+	before     parameters.Map
+	errsBefore []error
+}
+
+func viewOf(label, mode string, p *parameters.Parameters) *tableView {
 	before := parameters.Map{}
 	for k, v := range p.VerifParamMap() {
 		before[k] = v
 	}
-	errsBefore := p.VerifValidationErrors()
-	mode := inst.kind
-	if mode == "comp" {
-		mode = inst.comp.mode
-	}
+	return &tableView{label: label, mode: mode, p: p, before: before, errsBefore: p.VerifValidationErrors()}
+}
 
-	panicked := inst.set(user)
-	inst.maps = append(inst.maps, user)
-	if panicked != "" {
-		c.Op(line, "panic")
-		c.Fail("no-panic", "params:"+name+":set-parameters-panic", fmt.Sprintf("%s.SetParameters panicked: %s", name, panicked), h.opsOf(inst, line))
-		return
-	}
-	c.Op(line, h.state(inst))
-
-	after := p.VerifParamMap()
-	errsAfter := p.VerifValidationErrors()
-	var newErrs [3]int
+// evalClauses evaluates the property's per-call clauses on one parameter set, with the implementation's own
+// validators: a valid user value replaces what was stored, an invalid one leaves it and is reported exactly once,
+// unsupported keys are reported (all) or ignored (enforced), no other key changes, errors are never lost.
+func (h *paramHarness) evalClauses(inst *paramInst, tv *tableView, user parameters.Map, line string) (nValid int, newErrs [3]int, complete bool) {
+	c := h.c
+	name, label, mode := inst.comp.name, tv.label, tv.mode
+	specs := tv.p.VerifSpecifications()
+	before, errsBefore := tv.before, tv.errsBefore
+	after := tv.p.VerifParamMap()
+	errsAfter := tv.p.VerifValidationErrors()
 	if len(errsAfter) < len(errsBefore) {
 		c.Fail("errors-accumulate", "params:"+name+":errors-lost",
-			fmt.Sprintf("%s: %d validation error(s) before the call, %d after: reported errors were discarded", name, len(errsBefore), len(errsAfter)), h.opsOf(inst, line))
-		return
+			fmt.Sprintf("%s: %d validation error(s) before the call, %d after: reported errors were discarded", label, len(errsBefore), len(errsAfter)), h.opsOf(inst, line))
+		return 0, newErrs, false
 	}
 	for _, e := range errsAfter[len(errsBefore):] {
 		newErrs[errClass(e)]++
 	}
 	wantInvalid, wantUnsupported := 0, 0
-	nValid := 0
 	for k, v := range user {
 		verdict := classifyVerdict(specs.Validate(k, v))
 		_, specified := specs[k]
@@ -1043,7 +1248,7 @@ func (h *paramHarness) doSet(inst *paramInst, user parameters.Map, line string) 
 			// a valid user value replaces the default
 			if got, ok := after[k]; !ok || !sameValue(got, v) {
 				c.Fail("valid-value-replaces-default", "params:"+name+":valid-not-assigned",
-					fmt.Sprintf("%s: %s = %#v is valid but the map holds %#v", name, k, v, after[k]), h.opsOf(inst, line))
+					fmt.Sprintf("%s: %s = %#v is valid but the map holds %#v", label, k, v, after[k]), h.opsOf(inst, line))
 			}
 		default:
 			// an invalid one leaves what was there and is reported
@@ -1051,7 +1256,7 @@ func (h *paramHarness) doSet(inst *paramInst, user parameters.Map, line string) 
 			got, has := after[k]
 			if had != has || (had && !sameValue(old, got)) {
 				c.Fail("invalid-value-leaves-default", "params:"+name+":invalid-assigned",
-					fmt.Sprintf("%s: %s = %#v is %s but the entry changed from %#v to %#v", name, k, v, verdict, old, got), h.opsOf(inst, line))
+					fmt.Sprintf("%s: %s = %#v is %s but the entry changed from %#v to %#v", label, k, v, verdict, old, got), h.opsOf(inst, line))
 			}
 			if specified {
 				wantInvalid++
@@ -1062,7 +1267,7 @@ func (h *paramHarness) doSet(inst *paramInst, user parameters.Map, line string) 
 	}
 	if newErrs[0] != wantInvalid {
 		c.Fail("invalid-value-reported-once", "params:"+name+":invalid-error-count",
-			fmt.Sprintf("%s: %d rejected value(s) of specified keys, %d validation error(s) added", name, wantInvalid, newErrs[0]), h.opsOf(inst, line))
+			fmt.Sprintf("%s: %d rejected value(s) of specified keys, %d validation error(s) added", label, wantInvalid, newErrs[0]), h.opsOf(inst, line))
 	}
 	if newErrs[1] != wantUnsupported {
 		sig := "params:" + name + ":unsupported-not-reported"
@@ -1070,7 +1275,7 @@ func (h *paramHarness) doSet(inst *paramInst, user parameters.Map, line string) 
 			sig = "params:" + name + ":unsupported-reported-in-enforced-mode"
 		}
 		c.Fail("unsupported-keys-reported", sig,
-			fmt.Sprintf("%s (%s mode): %d unsupported key(s) supplied, %d reported", name, mode, wantUnsupported, newErrs[1]), h.opsOf(inst, line))
+			fmt.Sprintf("%s (%s mode): %d unsupported key(s) supplied, %d reported", label, mode, wantUnsupported, newErrs[1]), h.opsOf(inst, line))
 	}
 	// nothing but user keys may change
 	for k, v := range after {
@@ -1078,13 +1283,76 @@ func (h *paramHarness) doSet(inst *paramInst, user parameters.Map, line string) 
 			continue
 		}
 		if old, had := before[k]; !had || !sameValue(old, v) {
-			c.Fail("other-keys-untouched", "params:"+name+":unrelated-key-changed", name+": "+k, h.opsOf(inst, line))
+			c.Fail("other-keys-untouched", "params:"+name+":unrelated-key-changed", label+": "+k, h.opsOf(inst, line))
 		}
 	}
+	return nValid, newErrs, true
+}
+
+// doSet applies one user map and evaluates the property's clauses directly on the implementation.
+func (h *paramHarness) doSet(inst *paramInst, user parameters.Map, line string) {
+	c := h.c
+	name := inst.comp.name
+	p := inst.p()
+	specs := p.VerifSpecifications()
+	mode := inst.kind
+	if mode == "comp" {
+		mode = inst.comp.mode
+	}
+	id := strings.Fields(line)[1]
+	own := viewOf(name, mode, p)
+	var nested []*tableView
+	for i, n := range inst.nested {
+		nested = append(nested, viewOf(fmt.Sprintf("%s[nested part %d: %s]", name, i, n.comp), h.comps[n.comp].mode, n.p()))
+	}
+
+	res := inst.set(user)
+	inst.maps = append(inst.maps, user)
+	if res.panicked != "" {
+		c.Op(line, "panic")
+		c.Fail("no-panic", "params:"+name+":set-parameters-panic", fmt.Sprintf("%s.SetParameters panicked: %s", name, res.panicked), h.opsOf(inst, line))
+		return
+	}
+	c.Op(line, h.state(inst))
+	// the fan-out: every nested component was handed the same user map; its state is compared with the model's
+	// and the property's clauses are evaluated on it as on the component's own parameter set
+	nestedErrs := 0
+	for i, n := range inst.nested {
+		c.Op(fmt.Sprintf("pstate %s %d", id, i), stateOf(n.p()))
+		nestedErrs += len(n.p().VerifValidationErrors())
+		if v, _, ok := h.evalClauses(inst, nested[i], user, line); ok && v > 0 {
+			c.Stat("fan-out: valid value assigned in a nested component (" + name + " -> " + n.comp + ")")
+		}
+	}
+	errsAfter := p.VerifValidationErrors()
+	nValid, newErrs, complete := h.evalClauses(inst, own, user, line)
+	if !complete {
+		return
+	}
 	h.checkWT(inst, line)
-	// SetParameters()/ParameterErrors() agree with the accumulated error list
-	if inst.kind == "comp" && (inst.errs() == nil) != (len(errsAfter) == 0) && inst.comp.name != "kirkexplorer" && inst.comp.name != "suppexplorer" {
-		c.Fail("errors-reported", "params:"+name+":parameter-errors-disagree", fmt.Sprintf("%s: ParameterErrors()=%v but %d accumulated", name, inst.errs(), len(errsAfter)), h.opsOf(inst, line))
+	// the two observation points the property names: ParameterErrors() agrees with the error lists accumulated by
+	// the component AND by every component it forwards to (also compared with the model: `perrs`), and the
+	// SetParameters() result says the same
+	if inst.kind == "comp" {
+		reports := inst.errs() != nil
+		c.Op("perrs "+id, b2s(reports))
+		if reports != (len(errsAfter)+nestedErrs > 0) {
+			c.Fail("errors-reported", "params:"+name+":parameter-errors-disagree",
+				fmt.Sprintf("%s: ParameterErrors()=%v but %d own + %d nested validation error(s) accumulated", name, inst.errs(), len(errsAfter), nestedErrs), h.opsOf(inst, line))
+		}
+		switch {
+		case !res.hasRet:
+			c.Stat("SetParameters result: method returns none (" + name + ")")
+		case (res.ret != nil) == reports:
+			c.Stat(fmt.Sprintf("SetParameters result agrees with ParameterErrors(): errors=%v nested-only=%v", reports, reports && len(errsAfter) == 0))
+		case res.ret == nil:
+			c.Stat("SetParameters result: OMITS reported errors (" + name + ")")
+			c.Fail("set-parameters-result", "params:"+name+":set-parameters-result-omits-errors",
+				fmt.Sprintf("%s.SetParameters(%v) returned nil although ParameterErrors() reports %d own + %d nested validation error(s): %s", name, user, len(errsAfter), nestedErrs, clip(inst.errs().Error(), 400)), h.opsOf(inst, line))
+		default:
+			c.Fail("set-parameters-result", "params:"+name+":set-parameters-result-phantom-errors",
+				fmt.Sprintf("%s.SetParameters(%v) returned %v although ParameterErrors() is nil", name, user, res.ret), h.opsOf(inst, line))
+		}
 	}
 	bucket := func(n int) string {
 		if n >= 2 {
@@ -1115,6 +1383,8 @@ func failClass(msg string) string {
 		return "data-source-not-supported"
 	case strings.Contains(msg, "errors-after-initialise"):
 		return "data-source-load-error"
+	case strings.Contains(msg, "non-finite-result"):
+		return "non-finite-result"
 	}
 	return "other"
 }
@@ -1153,7 +1423,7 @@ func (h *paramHarness) attribute(inst *paramInst, failure string) (string, param
 		fresh := inst.comp.fresh()
 		fresh.comp, fresh.kind = inst.comp, "comp"
 		fresh.maps = []parameters.Map{m}
-		if fresh.set(m) != "" || fresh.errs() != nil {
+		if fresh.set(m).panicked != "" || fresh.errs() != nil {
 			return false
 		}
 		return failClass(fresh.use(h, fresh)) == class && class != ""
@@ -1260,7 +1530,18 @@ func (h *paramHarness) doUse(inst *paramInst, line string) {
 	}
 	what, minimal := h.attribute(inst, failure)
 	sig := "params:" + name + ":" + what + ":later-failure"
-	c.Stat("use " + name + ": FAILED " + what)
+	if culprits, m := h.overflowRootCause(name, minimal, failure); len(culprits) > 0 {
+		// D15, recorded per ROOT CAUSE (component, failure site) and not per key and value class: every
+		// overflow-sized combination of keys whose specification states no range ends in the same guard,
+		// or (an infinite partial product times zero, or Inf - Inf, is NaN, which the guard lets through)
+		// in silently non-finite decision variables
+		site := map[string]string{"rounding-panic": "overflow", "non-finite-result": "overflow-non-finite"}[failClass(failure)]
+		sig = "params:" + name + ":" + site + ":later-failure"
+		c.Stat(fmt.Sprintf("use %s: FAILED %s (%d unbounded IsDecimal key(s) responsible, combined magnitude 1e%d+)", name, site, len(culprits), 50*(int(m)/50)))
+		c.Nontrivial(site + " " + name + " " + strings.Join(culprits, "+"))
+	} else {
+		c.Stat("use " + name + ": FAILED " + what)
+	}
 	if h.reported[sig] {
 		return
 	}
@@ -1268,6 +1549,53 @@ func (h *paramHarness) doUse(inst *paramInst, line string) {
 	ops := reproOps(name, []parameters.Map{minimal})
 	c.Fail("no-errors-no-later-failure", sig,
 		fmt.Sprintf("component %s accepted %v without any parameter error, then failed in use (%s): %s", name, minimal, failClass(failure), clip(failure, 600)), ops)
+}
+
+// overflowSizedAt: the combined decimal magnitude (sum of |log10 |v|| over the responsible values) from which a
+// combination of accepted values counts as overflow-sized.  float64 ends at 1.8e308 and the shipped data set
+// contributes factors far below 1e100, so RoundFloat's guard cannot trip below this on the unchanged formulas;
+// a rounding panic at a smaller combined magnitude is a DIFFERENT failure and keeps its per-key signature.
+const overflowSizedAt = 200
+
+// overflowRootCause decides whether a later failure is the recorded root cause "a key whose specification
+// states no range at all (IsDecimal) accepts overflow-sized values; an intermediate result then trips
+// RoundFloat's guard, or becomes NaN (Inf * 0, Inf - Inf) and slips through it into the decision variables".
+// It is when (a) the failure is that guard or a non-finite decision variable, (b) the 1-minimal responsible set (every
+// member is necessary: resetting any one of them to its default makes the failure disappear) contains
+// unbounded IsDecimal keys, none of them zero, and (c) those alone have a combined magnitude of at least
+// 1e200.  Bounded keys may be in the set too (an in-range factor that tips a marginal product over); they
+// are not the cause.  Returns the unbounded keys responsible and their combined magnitude, or nothing.
+func (h *paramHarness) overflowRootCause(comp string, minimal parameters.Map, failure string) ([]string, float64) {
+	class := failClass(failure)
+	if class != "rounding-panic" && class != "non-finite-result" {
+		return nil, 0
+	}
+	var culprits []string
+	magnitude := 0.0
+	for k, v := range minimal {
+		s, ok := h.specs[comp][k]
+		if !ok || validatorToken(s.Validator) != "decimal" {
+			continue
+		}
+		f, isFloat := v.(float64)
+		if !isFloat || math.IsNaN(f) || math.IsInf(f, 0) {
+			return nil, 0
+		}
+		if f == 0 {
+			if class == "rounding-panic" {
+				return nil, 0 // a zero cannot be needed to overflow a product: a zero divisor is another defect
+			}
+			culprits = append(culprits, k) // Inf * 0 = NaN: the zero is needed, the magnitude comes from the others
+			continue
+		}
+		culprits = append(culprits, k)
+		magnitude += math.Abs(math.Log10(math.Abs(f)))
+	}
+	if len(culprits) == 0 || magnitude < overflowSizedAt {
+		return nil, 0
+	}
+	sort.Strings(culprits)
+	return culprits, magnitude
 }
 
 // heavy runs a use that may exhaust memory or time in a child process with a watchdog.
@@ -1368,6 +1696,8 @@ func probeValues(repo string) []interface{} {
 		// arrays, tables, datetime
 		[]interface{}{}, []interface{}{int64(1)}, []interface{}{0.5, 0.25}, []interface{}{"a"}, []interface{}{[]interface{}{int64(1)}, []interface{}{"x"}},
 		map[string]interface{}{}, map[string]interface{}{"a": int64(1)}, map[string]interface{}{"x": map[string]interface{}{"y": 0.5}, "z": []interface{}{true}},
+		// TOML arrays of tables ([[Key]] ... [[Key]]): BurntSushi/toml decodes them to []map[string]interface{}
+		[]map[string]interface{}{{"a": int64(1)}}, []map[string]interface{}{{"a": 0.5}, {"b": "x", "c": []interface{}{int64(1)}}},
 		time.Date(2019, 5, 27, 7, 32, 0, 0, time.UTC),
 	}
 	return vals
@@ -1422,12 +1752,31 @@ func tomlText(v interface{}) (string, bool) {
 
 func (h *paramHarness) tomlCheck(v interface{}) {
 	text, ok := tomlText(v)
+	docText := "k = " + text + "\n"
+	if tables, isTableArray := v.([]map[string]interface{}); isTableArray {
+		// an array of tables is written as repeated [[k]] sections
+		ok, docText = true, ""
+		for _, t := range tables {
+			docText += "[[k]]\n"
+			keys := make([]string, 0, len(t))
+			for key := range t {
+				keys = append(keys, key)
+			}
+			sort.Strings(keys)
+			for _, key := range keys {
+				et, eok := tomlText(t[key])
+				ok = ok && eok
+				docText += key + " = " + et + "\n"
+			}
+		}
+		text = docText
+	}
 	if !ok {
 		h.c.Stat("toml: not expressible (" + valueKind(v) + ")")
 		return
 	}
 	var doc map[string]interface{}
-	if _, err := toml.Decode("k = "+text+"\n", &doc); err != nil {
+	if _, err := toml.Decode(docText, &doc); err != nil {
 		h.c.Stat("toml: decode error (" + valueKind(v) + ")")
 		return
 	}
@@ -1463,7 +1812,7 @@ var getterTypes = []string{"int", "float", "str", "bool"}
 // randomValueFor draws a value for a specified key: mostly of the right type and in range.
 func (h *paramHarness) randomValueFor(comp string, key string, probes []interface{}, forUse bool) interface{} {
 	r := h.c.Rng
-	s, ok := h.specs[comp][key]
+	s, ok := h.specFor(comp, key)
 	if !ok || (!forUse && r.Chance(0.2)) {
 		return probes[r.Intn(len(probes))]
 	}
@@ -1553,7 +1902,7 @@ func suiteParams(c *Ctx) {
 		must(os.Chdir(repo)) // DataSourcePath is resolved against the working directory
 	}
 	h := &paramHarness{c: c, comps: map[string]*paramComp{}, declared: map[string]bool{}, specs: map[string]specification.Specifications{},
-		insts: map[string]*paramInst{}, instOps: map[string][]string{}, readable: map[string]bool{}, usesLeft: map[string]int{}, reported: map[string]bool{}, heavyMemo: map[string]string{},
+		insts: map[string]*paramInst{}, instOps: map[string][]string{}, readable: map[string]bool{}, usesLeft: map[string]int{}, reported: map[string]bool{}, heavyMemo: map[string]string{}, nestedOf: map[string][]string{},
 		child: os.Getenv("VERIF_PARAMS_CHILD") == "1"}
 	for _, pc := range paramComponents() {
 		h.comps[pc.name] = pc
@@ -1640,10 +1989,13 @@ func suiteParams(c *Ctx) {
 		unknownKeys := []string{"Bogus", "", strings.ToLower(specKeys[0]), specKeys[0] + " ", "MaximumIterations", "CoolingFactor", "DataSourcePath"}
 		var unknown []string
 		for _, k := range unknownKeys {
-			if _, ok := h.specs[pc.name][k]; !ok {
+			if _, ok := h.specFor(pc.name, k); !ok {
 				unknown = append(unknown, k)
 			}
 		}
+		// keys the component does not specify itself but hands on to a component that does (explorer, coolant)
+		partKeys := h.nestedKeys(pc.name)
+		h.c.Stat(fmt.Sprintf("component %s: %d own key(s), %d key(s) of %d nested component(s)", pc.name, len(specKeys), len(partKeys), len(h.nestedOf[pc.name])))
 
 		// 0. the freshly built component: defaults, every getter on every key
 		id := h.newInst(pc.name, "comp")
@@ -1658,7 +2010,7 @@ func suiteParams(c *Ctx) {
 
 		// 1. every key (specified and unknown) x every probe value, alone: verdict, assignment through the
 		//    component and through both raw loops, getters afterwards, then use if error-free
-		for _, k := range append(append([]string{}, specKeys...), unknown...) {
+		for _, k := range append(append(append([]string{}, specKeys...), partKeys...), unknown...) {
 			for _, v := range probes {
 				h.exec("validate " + pc.name + " k:" + hexS(k) + " " + encValue(v))
 				kinds := []string{"comp"}
@@ -1689,7 +2041,7 @@ func suiteParams(c *Ctx) {
 		if pc.name == "catchment" {
 			rounds = c.N(250, 4000)
 		}
-		allKeys := append(append([]string{}, specKeys...), unknown...)
+		allKeys := append(append(append([]string{}, specKeys...), partKeys...), unknown...)
 		for round := 0; round < rounds; round++ {
 			kind := []string{"comp", "comp", "all", "enforced"}[r.Intn(4)]
 			forUse := kind == "comp" && r.Chance(0.6)
@@ -1711,7 +2063,7 @@ func suiteParams(c *Ctx) {
 					if len(keys) == n {
 						break
 					}
-					if _, specified := h.specs[pc.name][k]; !specified && forUse && h.comps[pc.name].mode == "all" {
+					if _, specified := h.specFor(pc.name, k); !specified && forUse && h.comps[pc.name].mode == "all" {
 						continue
 					}
 					if forUse && pc.name == "catchment" && isLimitKey(k) && (hasLimit(keys) || limitAlready(h.insts[id])) {
@@ -1725,6 +2077,11 @@ func suiteParams(c *Ctx) {
 					vals = append(vals, catchmentCsv)
 				}
 				h.exec(setLine(id, keys, vals))
+				// use - set - use: a component that has already run is parameterised again
+				if kind == "comp" && mi+1 < nMaps && r.Chance(0.3) {
+					h.c.Stat("use between two SetParameters calls (" + pc.name + ")")
+					h.exec("use " + id)
+				}
 			}
 			for _, k := range specKeys {
 				s := h.specs[pc.name][k]
@@ -1741,6 +2098,197 @@ func suiteParams(c *Ctx) {
 			}
 			h.drop(id)
 		}
+
+		// 3. every decimal key at magnitudes across the whole float64 range, alone and in pairs / triples
+		h.magnitudeStream(pc, specKeys)
+	}
+}
+
+// ---------------------------------------------------------------- magnitude stream
+//
+// Every key with a decimal validator, at magnitudes spread over the WHOLE float64 range (log-uniform in
+// +-[1e-300, 1e300]) rather than near its default or at the extremes only: alone, and in pairs and triples
+// (products of individually unremarkable values such as 1e160 * 1e160 overflow).  Each case is a fresh
+// component, one SetParameters (compared with the model as any other `set`), typed reads, then a use.
+
+func pow10f(e float64) float64 { return math.Pow(10, e) }
+
+// decimalBoundsOf: the bounds of a decbounds token (bit patterns), else ok=false.
+func decimalBoundsOf(tok string) (lo, hi float64, ok bool) {
+	w := strings.Fields(tok)
+	if len(w) != 3 || w[0] != "decbounds" {
+		return 0, 0, false
+	}
+	l, e1 := strconv.ParseUint(w[1], 16, 64)
+	u, e2 := strconv.ParseUint(w[2], 16, 64)
+	return math.Float64frombits(l), math.Float64frombits(u), e1 == nil && e2 == nil
+}
+
+// magnitudeValue draws a log-uniform magnitude for a decimal key: mostly inside what the validator accepts
+// (so that the component gets used), sometimes outside (so that the rejection is compared as well).
+func magnitudeValue(tok string, r *Rng) float64 {
+	anywhere := func() float64 { return pow10f(-300 + 600*r.Float()) }
+	switch strings.Fields(tok)[0] {
+	case "decimal":
+		if r.Chance(0.05) {
+			return 0
+		}
+		v := anywhere()
+		if r.Chance(0.25) {
+			return -v
+		}
+		return v
+	case "decnonneg":
+		if r.Chance(0.1) {
+			return -anywhere()
+		}
+		return anywhere()
+	case "dec01":
+		if r.Chance(0.1) {
+			return []float64{-1, 1}[r.Intn(2)] * anywhere()
+		}
+		return pow10f(-300 * r.Float())
+	case "decbounds":
+		if lo, hi, ok := decimalBoundsOf(tok); ok && lo > 0 && hi > lo && !r.Chance(0.1) {
+			return math.Min(hi, math.Max(lo, pow10f(math.Log10(lo)+(math.Log10(hi)-math.Log10(lo))*r.Float())))
+		}
+		return anywhere()
+	}
+	return anywhere()
+}
+
+// gridValue: the large (small) end of what the validator accepts, for the deterministic pair/triple grid.
+func gridValue(tok string, exp float64) float64 {
+	switch strings.Fields(tok)[0] {
+	case "dec01":
+		if exp > 0 {
+			return 1
+		}
+	case "decbounds":
+		if lo, hi, ok := decimalBoundsOf(tok); ok {
+			if exp > 0 {
+				return hi
+			}
+			return lo
+		}
+	}
+	return pow10f(exp)
+}
+
+func (h *paramHarness) magnitudeCase(pc *paramComp, keys []string, vals []interface{}, how string) {
+	c := h.c
+	id := h.newInst(pc.name, "comp")
+	inst := h.insts[id]
+	if inst == nil {
+		return
+	}
+	setKeys, setVals := append([]string{}, keys...), append([]interface{}{}, vals...)
+	if pc.name == "catchment" && !contains(setKeys, catchParams.DataSourcePath) {
+		setKeys, setVals = append(setKeys, catchParams.DataSourcePath), append(setVals, catchmentCsv)
+	}
+	h.exec(setLine(id, setKeys, setVals))
+	sum, accepted := 0.0, 0
+	for i, k := range keys {
+		h.exec("get " + id + " k:" + hexS(k) + " float")
+		f := vals[i].(float64)
+		stored := []interface{}{inst.p().VerifParamMap()[k]}
+		for _, n := range inst.nested {
+			stored = append(stored, n.p().VerifParamMap()[k])
+		}
+		for _, sv := range stored {
+			if got, ok := sv.(float64); ok && math.Float64bits(got) == math.Float64bits(f) {
+				accepted++
+				break
+			}
+		}
+		if f != 0 {
+			sum += math.Log10(math.Abs(f))
+		}
+	}
+	bucket := int(math.Floor(sum/300)) * 300
+	c.Stat(fmt.Sprintf("magnitude %s: %d key(s), all accepted=%v, sum of log10|v| in [%d,%d)", how, len(keys), accepted == len(keys), bucket, bucket+300))
+	c.Stat("magnitude cases " + pc.name)
+	h.exec("use " + id)
+	h.drop(id)
+}
+
+func (h *paramHarness) magnitudeStream(pc *paramComp, specKeys []string) {
+	r := h.c.Rng
+	toks := map[string]string{}
+	var dkeys, unbounded []string
+	for _, k := range append(append([]string{}, specKeys...), h.nestedKeys(pc.name)...) {
+		sp, _ := h.specFor(pc.name, k)
+		tok := validatorToken(sp.Validator)
+		if validatorTy(tok) == "float" {
+			dkeys = append(dkeys, k)
+			toks[k] = tok
+			if tok == "decimal" {
+				unbounded = append(unbounded, k)
+			}
+		}
+	}
+	if len(dkeys) == 0 {
+		return
+	}
+	compatible := func(keys []string, k string) bool { // distinct keys; the catchment model allows one limit only
+		return !contains(keys, k) && !(pc.name == "catchment" && isLimitKey(k) && hasLimit(keys))
+	}
+	// (a) deterministic grid, alone: powers of ten across the range, both signs at two of them
+	for _, k := range dkeys {
+		for _, e := range []float64{-300, -200, -100, -30, 30, 100, 150, 160, 200, 250, 290, 299, 300} {
+			h.magnitudeCase(pc, []string{k}, []interface{}{pow10f(e)}, "grid")
+		}
+		for _, e := range []float64{-300, 160, 300} {
+			h.magnitudeCase(pc, []string{k}, []interface{}{-pow10f(e)}, "grid")
+		}
+	}
+	// (b) deterministic grid, every pair: both large, both small, one of each (each as large/small as its validator accepts)
+	for i, k1 := range dkeys {
+		for _, k2 := range dkeys[i+1:] {
+			if !compatible([]string{k1}, k2) {
+				continue
+			}
+			for _, e := range [][2]float64{{160, 160}, {-160, -160}, {160, -160}, {-160, 160}} {
+				h.magnitudeCase(pc, []string{k1, k2}, []interface{}{gridValue(toks[k1], e[0]), gridValue(toks[k2], e[1])}, "grid")
+			}
+		}
+	}
+	// (c) deterministic grid, every triple of keys whose specification states no range
+	for i, k1 := range unbounded {
+		for j, k2 := range unbounded[i+1:] {
+			for _, k3 := range unbounded[i+1+j+1:] {
+				for _, e := range []float64{110, -110} {
+					h.magnitudeCase(pc, []string{k1, k2, k3}, []interface{}{pow10f(e), pow10f(e), pow10f(e)}, "grid")
+				}
+				// an overflowing partial product times zero is NaN, which no guard stops
+				for _, vs := range [][]interface{}{{1e160, 1e160, 0.0}, {1e160, 0.0, 1e160}, {0.0, 1e160, 1e160}} {
+					h.magnitudeCase(pc, []string{k1, k2, k3}, vs, "grid")
+				}
+			}
+		}
+	}
+	// (d) random: 1-3 keys (unbounded ones preferred), each at its own log-uniform magnitude
+	rounds := h.c.N(25, 400) * len(dkeys)
+	if max := h.c.N(300, 6000); rounds > max {
+		rounds = max
+	}
+	for round := 0; round < rounds; round++ {
+		n := 1 + r.Intn(3)
+		var keys []string
+		var vals []interface{}
+		for tries := 0; len(keys) < n && tries < 20; tries++ {
+			pool := dkeys
+			if len(unbounded) > 0 && r.Chance(0.6) {
+				pool = unbounded
+			}
+			k := pool[r.Intn(len(pool))]
+			if !compatible(keys, k) {
+				continue
+			}
+			keys = append(keys, k)
+			vals = append(vals, magnitudeValue(toks[k], r))
+		}
+		h.magnitudeCase(pc, keys, vals, "random")
 	}
 }
 
